@@ -32,7 +32,8 @@ def _lines(case):
             out.append((ln["text"], None, None))
             continue
         form = S.FORM_BY_ID[ln["form"]]
-        line, spans = S.render(form, ln["head"], ln["trail"], [ln["value"]], tuple(ln["enc"]), ln["lead"], "")
+        vals = ln["values"] if "values" in ln else [ln["value"]]
+        line, spans = S.render(form, ln["head"], ln["trail"], vals, tuple(ln["enc"]), ln["lead"], "")
         out.append((line, spans, ln))
     return out
 
@@ -112,13 +113,26 @@ def _model_check(case, lines, outs, ev, extra_cls):
             continue
         shift = len(line) - len(line.lstrip())
         rs = S.extract_replacements(line.strip(), [(a - shift, b - shift) for a, b in spans], o.strip())
-        v, c = ln["value"], ln["cls"]
-        cls.append("class-" + c)
-        if rs is None or rs[0] == v or not rs[0]:
+        vals = ln["values"] if "values" in ln else [ln["value"]]
+        clss = ln["clss"] if "clss" in ln else [ln["cls"]]
+        if len(vals) > 1:
+            cls.append("two-secrets-on-one-line")
+        if rs is None or any(r == v or not r for r, v in zip(rs, vals)):
             if f is None:
-                f = Finding("history/secret-not-replaced:%s:%s" % (ln["form"], c), "%r -> %r" % (line, o), case)
+                f = Finding("history/secret-not-replaced:%s:%s" % (ln["form"], "+".join(clss)), "%r -> %r" % (line, o), case)
             continue
-        r = rs[0]
+        for slot in range(len(vals)):
+            f = _one(case, lines, outs, i, line, o, ln, vals[slot], clss[slot], rs[slot], model, inverse, seen_styles, new_since, cls, f)
+            if seen_styles.pop("__nt__", None):
+                nt = True
+    ev.case(case, nt, cls)
+    return f
+
+
+def _one(case, lines, outs, i, line, o, ln, v, c, r, model, inverse, seen_styles, new_since, cls, f):
+    nt = False
+    cls.append("class-" + c)
+    if True:
         if c == "j9":
             sid = J.decode(v)
             try:
@@ -126,7 +140,7 @@ def _model_check(case, lines, outs, ev, extra_cls):
             except ValueError:
                 if f is None:
                     f = Finding("history/j9-replacement-not-decodable", "%r -> %r" % (line, o), case)
-                continue
+                return f
         else:
             sid, pid = v, r
         style = (ln["form"], tuple(ln["enc"]), c, v if c == "j9" else None)
@@ -159,13 +173,15 @@ def _model_check(case, lines, outs, ev, extra_cls):
             model[sid] = (pid, i)
             inverse.setdefault(pid, sid)
             seen_styles[sid] = style
-    ev.case(case, nt, cls)
+    if nt:
+        seen_styles["__nt__"] = True
     return f
 
 
 REPLAY = {"history": check_history, "dir": check_dir}
 
 _FORMS1 = [f for f in S.POS_FORMS if f.slots == 1 and "exact" not in f.text_kw]
+_FORMS2 = [f for f in S.POS_FORMS if f.slots == 2]
 
 
 @st.composite
@@ -199,6 +215,13 @@ def _case(draw, max_lines=30):
                 c = "j9"
         else:
             v, c = p["value"], p["cls"]
+        if draw(st.integers(0, 6)) == 0:
+            # two different pool members on one line (forms with two secret slots)
+            p2 = draw(st.sampled_from(pool))
+            v2 = draw(S.j9_value(plain=p2["plain"])) if p2["cls"] == "j9" else p2["value"]
+            form = draw(st.sampled_from(_FORMS2))
+            lines.append({"form": form.id, "head": draw(st.integers(0, len(form.heads) - 1)), "trail": draw(st.integers(0, len(form.trails) - 1)), "enc": ["", ""], "lead": draw(st.sampled_from(["", " "])), "values": [v, v2], "clss": [c, p2["cls"]]})
+            continue
         forms = [f for f in _FORMS1 if c in f.classes and (f.reject is None or not f.reject(v)) and (":" not in v or "alphabet_mid" not in f.text_kw)]
         form = draw(st.sampled_from(forms))
         lines.append(
